@@ -52,17 +52,21 @@ static void emit_group(const Grp &G) {
 	mpz_clear(a); mpz_clear(b); mpz_clear(r);
 }
 
-// message catalogue {0, 1, q-1, q, random 256-bit}
-static const char *MSG_NAME[5] = {"0", "1", "q-1", "q", "rand256"};
+// message catalogue {0, 1, q-1, q, random 256-bit, random below q}
+// (threshold DSS signs hash values already cut to the length of q: DSS::Sign raises the fixed-base
+//  table g^m, h^m with the unreduced m and ends with std::runtime_error for longer values, see notes)
+static const char *MSG_NAME[6] = {"0", "1", "q-1", "q", "rand256", "randq"};
 static void make_msg(mpz_ptr m, int idx, const Grp &G, Rng &r) {
 	switch (idx) {
 	case 0: mpz_set_ui(m, 0); break;
 	case 1: mpz_set_ui(m, 1); break;
 	case 2: mpz_sub_ui(m, G.q, 1); break;
 	case 3: mpz_set(m, G.q); break;
-	default: r.mpz_bits(m, 256); mpz_setbit(m, 255); break;
+	case 4: r.mpz_bits(m, 256); mpz_setbit(m, 255); break;
+	default: r.mpz_below(m, G.q); break;
 	}
 }
+static int dss_msg(int k) { k %= 5; return k == 4 ? 5 : k; }
 
 enum { NTS = 0, DSS = 1 };
 static const char *SCHEME[2] = {"nts", "dss"};
@@ -74,8 +78,12 @@ struct Scenario {
 	int keygen_faulty = -1;   // -1: decided by the case rng; 0/1 forced
 	int cut = -2;             // scripted mode: -2 rng, -1 never drops out, >=0 randomizer index of the drop-out
 	int rep = 0;
+	bool bigmsg = false;      // DSS: key generation + one signature on a 256-bit message (expected: refusal)
+	double preempt = 0.0;     // probability of a task switch after a Send
 	std::string desc() const {
 		J d; d.kv("kind", "run").kv("scheme", SCHEME[scheme]).kv("n", (long long)n).kv("thr", (long long)t).arrn("faulty", faulty).kv("fmode", FMODE[fmode]).kv("rep", rep);
+		if (bigmsg) d.kv("bigmsg", true);
+		if (preempt > 0) d.kv("preempt", preempt);
 		return d.str();
 	}
 };
@@ -128,11 +136,14 @@ static void run_scenario(Run &R) {
 	if (sc.scheme == NTS) {
 		R.phases.push_back({PH_GEN, -1, "gen"});
 		for (int k = 0; k < 5; k++) R.phases.push_back({PH_SIGN, (m0 + k) % 5, "fresh"});
+	} else if (sc.bigmsg) {
+		R.phases.push_back({PH_GEN, -1, "gen"});
+		R.phases.push_back({PH_SIGN, 4, "fresh"});
 	} else {
 		R.phases.push_back({PH_GEN, -1, "gen"});
-		R.phases.push_back({PH_SIGN, m0, "fresh"});
+		R.phases.push_back({PH_SIGN, dss_msg(m0), "fresh"});
 		R.phases.push_back({PH_REFRESH, -1, "refresh"});
-		R.phases.push_back({PH_SIGN, (m0 + 1 + (int)cr.below(4)) % 5, "refreshed"});
+		R.phases.push_back({PH_SIGN, dss_msg(m0 + 1 + (int)cr.below(4)), "refreshed"});
 		// reduced signer set of size n-1 where the API allows it (n_in >= 2t+1); the broadcast among
 		// the n-1 members tolerates t_r = floor((n-2)/3) faults, so a deviating party is a member
 		// only if that is >= 1 (otherwise the set consists of honest parties only)
@@ -143,7 +154,7 @@ static void run_scenario(Run &R) {
 			if (!cand_out.empty() && (sc.faulty.size() <= 1 || tr >= sc.faulty.size())) {
 				size_t leave = cand_out[cr.below(cand_out.size())];
 				for (size_t i = 0; i < n; i++) if (i != leave) { R.subset.push_back(i); R.inset[i] = true; }
-				R.phases.push_back({PH_RSIGN, (m0 + 2) % 5, "reduced"});
+				R.phases.push_back({PH_RSIGN, dss_msg(m0 + 2), "reduced"});
 			}
 		}
 	}
@@ -169,6 +180,7 @@ static void run_scenario(Run &R) {
 	size_t nr = R.subset.size();
 	size_t tr = nr ? std::min(t, (nr - 1) / 3) : 0;
 	Net uni(n, &sched), bc(n, &sched), uni_r(nr ? nr : 1, &sched), bc_r(nr ? nr : 1, &sched);
+	uni.preempt_p = bc.preempt_p = uni_r.preempt_p = bc_r.preempt_p = sc.preempt;
 	Barrier bar(n), bar_r(n);
 	std::vector<bool> skip_r(n, false); for (size_t i = 0; i < n; i++) skip_r[i] = !R.inset[i];
 	std::map<size_t, size_t> idx2dkg, dkg2idx; for (size_t k = 0; k < nr; k++) { idx2dkg[k] = R.subset[k]; dkg2idx[R.subset[k]] = k; }
@@ -355,7 +367,7 @@ static void do_vp_case(long k, int scheme, int gi) {
 			}
 		}
 	};
-	for (int mi = 0; mi < 5; mi++) {
+	for (int mi = 0; mi < 6; mi++) {
 		make_msg(m, mi, G, r); sign(a, s, m);
 		mpz_add_ui(m2, m, 7); sign(a2, s2, m2);          // a valid signature on another message
 		std::vector<std::pair<std::string, std::function<void(mpz_ptr, mpz_ptr, mpz_ptr)>>> muts;
@@ -460,6 +472,7 @@ int main(int argc, char **argv) {
 		s.fmode = fm == "script" ? FM_SCRIPT : (fm == "lib" ? FM_LIB : FM_NONE);
 		s.keygen_faulty = (int)ctx.option_l("keygen_faulty", -1);
 		std::string cut = ctx.option("cut"); if (!cut.empty()) s.cut = cut == "none" ? -1 : atoi(cut.c_str());
+		s.preempt = atof(ctx.option("preempt", "0").c_str()); s.bigmsg = !ctx.option("bigmsg").empty();
 		long reps = ctx.option_l("reps", 1);
 		for (long r = 0; r < reps; r++) { s.rep = (int)r; if (!case_begin(k++, s.desc())) continue; do_run_case(k - 1, s); }
 		finish();
